@@ -19,9 +19,9 @@ from sketchnu import helpers
 
 RULE = (
     "Hypothesis-generated cases per class (5 classes): shape chosen so that byte sizes are mostly odd (width*depth*itemsize not a multiple of "
-    "8; heavy-hitter key area not a multiple of 4), an owner created with shared_memory=True, an ordinary in-memory twin, and up to 2 views "
+    "8; heavy-hitter key area not a multiple of 4), an owner created with shared_memory=True (by the constructor, or by <Class>.load(file, shared_memory=True)), an ordinary in-memory twin, and up to 2 views "
     "attached through attach_existing_shm on a fresh object or helpers.attach_shared_memory(type, owner.args, owner.shm.name); a generated "
-    "sequence of steps (add / update(list|dict) / add_ngram / merge of another sketch (ordinary, or itself in shared memory and reached through an attached view, as parallel_merging does) / attach a view / drop a view) each routed to the owner "
+    "sequence of steps (add / update(list|dict) / add_ngram / merge of two handles of the same block into each other (twin: sketch.merge(sketch)) / attach with a first attempt that fails with OSError and is retried / merge of another sketch (ordinary, or itself in shared memory and reached through an attached view, as parallel_merging does) / attach a view / drop a view) each routed to the owner "
     "or to any view and mirrored on the twin (same planted draws for log types); finally the handles are dropped in a generated order (owner "
     "last, or owner first while views still exist). Oracle after every step: owner, every view and the twin agree on tables, n_added/n_records "
     "and on queries asked through EVERY handle (count-min: all universe keys; heavy hitters: hh[key], query(inf,0), query(inf,1), query(3,None); "
@@ -55,7 +55,7 @@ def cases(draw):
     H = st.integers(0, 2)  # handle index, taken modulo the number of live handles
     steps = []
     for _ in range(draw(st.integers(2, 14))):
-        k = draw(st.sampled_from(["add", "add", "add", "update_list", "update_dict", "add_ngram", "merge_in", "attach", "attach", "drop_view"]))
+        k = draw(st.sampled_from(["add", "add", "add", "update_list", "update_dict", "add_ngram", "merge_in", "merge_own_view", "attach", "attach", "drop_view"]))
         s = {"op": k, "via": draw(H)}
         if k == "add":
             s["k"], s["v"] = draw(key), draw(val)
@@ -73,6 +73,7 @@ def cases(draw):
             s["other_shm"] = draw(st.booleans())  # the merged-in sketch itself lives in shared memory and is reached through a view
         elif k == "attach":
             s["how"] = draw(st.sampled_from(["method", "helper"]))
+            s["fail_first"] = draw(st.sampled_from([False, False, False, True]))  # the first attempt fails (e.g. EMFILE); the caller retries
         if log:
             s["draws"] = draw(DRAWS)
         steps.append(s)
@@ -81,15 +82,43 @@ def cases(draw):
         if log:
             first["draws"] = [0.0]
         steps.insert(draw(st.integers(0, min(2, len(steps)))), first)
-    return {"cfg": cfg, "U": U, "steps": steps, "owner_first": draw(st.booleans())}
+    return {"cfg": cfg, "U": U, "steps": steps, "owner_first": draw(st.booleans()), "owner_via_load": draw(st.sampled_from([False, False, True]))}
 
 
-def attach(cfg, owner, how):
+class _FailOnce:
+    """stands in for SharedMemory inside the sketch modules: the next attach raises OSError (out of file descriptors)"""
+
+    def __init__(self, real):
+        self.real = real
+        self.armed = True
+
+    def __call__(self, *a, **kw):
+        if self.armed and not kw.get("create", False):
+            self.armed = False
+            raise OSError(24, "Too many open files")
+        return self.real(*a, **kw)
+
+
+def attach(cfg, owner, how, fail_first=False):
     kind = cfg["kind"]
-    if how == "helper":
+    if how == "helper" and not fail_first:
         return sut(helpers.attach_shared_memory, TYPE_OF[kind], dict(owner.args), owner.shm.name)
     v = sut(make_sketch, cfg)
-    sut(v.attach_existing_shm, owner.shm.name)
+    if fail_first:
+        mods = (cmmod, hhmod, hlmod)
+        saved = [m.SharedMemory for m in mods]
+        for m in mods:
+            m.SharedMemory = _FailOnce(m.SharedMemory)
+        try:
+            try:
+                v.attach_existing_shm(owner.shm.name)
+                raise common.HarnessError("injected attach failure did not surface")
+            except OSError:
+                pass  # the caller catches the transient error ...
+        finally:
+            for m, sv in zip(mods, saved):
+                m.SharedMemory = sv
+    sut(v.attach_existing_shm, owner.shm.name)  # ... and (re)tries with the same block name
     return v
 
 
@@ -134,11 +163,30 @@ def run_case(case, real_sleep=False):
     kind = cfg["kind"]
     U = case["U"]
     stats = {"views": 0, "ops_via_view": 0}
-    owner = sut(make_sketch, cfg, True)
-    name = owner.shm.name
     twin = sut(make_sketch, cfg)
+    if case.get("owner_via_load"):
+        # the owner comes out of <Class>.load(file, shared_memory=True) of a sketch holding a little data
+        import shutil, tempfile
+
+        seedsk = sut(make_sketch, cfg)
+        for sk_ in (seedsk, twin):
+            if kind in ("log8", "log16"):
+                plant(sk_, [0.0])
+            sut(sk_.add, U[0], 2)
+            if kind != "hll":
+                sk_.n_added_records[1] = np.uint64(5)
+        d_ = tempfile.mkdtemp(prefix="vf_c16_")
+        try:
+            sut(seedsk.save, os.path.join(d_, "o.npz"))
+            owner = sut(CLASS_OF[kind].load, os.path.join(d_, "o.npz"), True)
+        finally:
+            shutil.rmtree(d_, ignore_errors=True)
+        stats["owner_via_load"] = 1
+    else:
+        owner = sut(make_sketch, cfg, True)
+    name = owner.shm.name
     handles = [owner]  # handles[0] is the owner
-    h = v = other = None
+    h = v = other = a_ = b_ = None
     try:
         def check(stage):
             st_twin = snapshot(twin, kind)
@@ -160,7 +208,7 @@ def run_case(case, real_sleep=False):
                 interfere(cfg)
             if op == "attach":
                 if len(handles) < 3:
-                    handles.append(attach(cfg, owner, s["how"]))
+                    handles.append(attach(cfg, owner, s["how"], s.get("fail_first", False)))
                     stats["views"] += 1
             elif op == "drop_view":
                 if len(handles) > 1:
@@ -172,6 +220,16 @@ def run_case(case, real_sleep=False):
                         raise Violation(f"{kind} {cfg}: dropping an attached view removed the owner's segment {name}", "view-unlinked-owner")
                     if not snap_equal(before, snapshot(owner, kind)):
                         raise Violation(f"{kind} {cfg}: dropping an attached view changed the owner's contents", "view-drop-changed-owner")
+            elif op == "merge_own_view":
+                # two handles on ONE block merged into each other: the in-memory equivalent is sketch.merge(sketch)
+                if len(handles) >= 2:
+                    a_ = handles[s["via"] % len(handles)]
+                    b_ = handles[(s["via"] + 1) % len(handles)]
+                    sut(a_.merge, b_)
+                    a_ = b_ = None  # keep no handle alive beyond the step (the deletion checks rely on it)
+                    sut(twin.merge, twin)
+                    stats["ops_via_view"] += 1
+                    stats["merge_own_view"] = stats.get("merge_own_view", 0) + 1
             elif op == "merge_in":
                 h = handles[s["via"] % len(handles)]
                 if s.get("other_shm"):
@@ -261,6 +319,10 @@ def _shard(arg):
             cl.append("owner_dropped_first")
         if stats.get("shm_other"):
             cl.append("merged_in_sketch_in_shared_memory")
+        if stats.get("owner_via_load"):
+            cl.append("owner_created_by_load")
+        if stats.get("merge_own_view"):
+            cl.append("merge_of_two_handles_on_one_block")
         rec.case(case, stats["views"] >= 1 and stats["ops_via_view"] >= 1 and (ua or case["cfg"]["kind"] == "hll"), cl)
 
     common.run_given(test, common.derive_seed(seed, "C16", shard), n_examples, holder, rec, retry=run_case)
